@@ -468,7 +468,7 @@ def coq_crosscheck(trace_path, work, sample, seed):
                 f.write("Example case_%d : obs_run (init_world %s %s) [%s] = [%s].\n" % (
                     ci, il, mlc, "; ".join(evs), "; ".join(exp)))
                 f.write("Proof. vm_compute. reflexivity. Qed.\n")
-        procs.append((vf, subprocess.Popen("timeout 600 coqc -q -Q %s MC %s" % (COQ, vf), shell=True, cwd=work,
+        procs.append((vf, subprocess.Popen("timeout 600 coqc -q -noglob -Q %s MC %s" % (COQ, vf), shell=True, cwd=work,
                                            stdout=subprocess.PIPE, stderr=subprocess.STDOUT)))
     allok, logs = True, ""
     for vf, p in procs:
